@@ -436,8 +436,8 @@ func pairTable(cells []vaxis.Cell) string {
 			continue
 		}
 		seen[k] = true
-		_, rest, _, _ := uniseg.FirstLineSegmentInString(k[0]+k[1], -1)
-		entries = append(entries, hx.Tuple(hx.Tuple(hx.Runes(k[0]), hx.Runes(k[1])), hx.Bool(len(rest) > 0)))
+		_, rest, must, _ := uniseg.FirstLineSegmentInString(k[0]+k[1], -1)
+		entries = append(entries, hx.Tuple(hx.Tuple(hx.Runes(k[0]), hx.Runes(k[1])), hx.Tuple(hx.Bool(len(rest) > 0), hx.Bool(must))))
 	}
 	return hx.List(entries)
 }
@@ -606,6 +606,9 @@ func addDraw(st *hx.Stream, parts []string, rich bool, style int, maxW, maxH uin
 
 var smallAlphabet = []string{"a", "b", " ", "-", "\n", "中", "́"}
 
+// the rich stream also enumerates a mandatory break that is not LF/CR (U+2028) and VT
+var richAlphabet = []string{"a", "b", " ", "-", "\n", "中", "́", "\u2028", "\v"}
+
 func exhaustive(alpha []string, maxLen int, f func(string)) {
 	var rec func(prefix string, n int)
 	rec = func(prefix string, n int) {
@@ -718,7 +721,11 @@ func main() {
 	}
 	// the defects fixed in /repo (kept as regression inputs) and the examples of the test suite
 	for _, s := range []string{"ab。", "中中。", "x ab-cd", "x ab-cd ef", "foo bar", "foo\nbar", "foo         bar",
-		" foo\n bar", "foo-bar", "a\r\nb", "\n\na", "a\n", "a \n", "ab  \ncd", "x\tb", "\t\tb c"} {
+		" foo\n bar", "foo-bar", "a\r\nb", "\n\na", "a\n", "a \n", "ab  \ncd", "x\tb", "\t\tb c",
+		// mandatory breaks other than LF/CR: LS, PS, VT, FF, NEL
+		"a\u2028b", "ab\u2028\u2028cd e", "a\vb", "a\fb c", "a\u0085b", "ab \u2029cd", "\u2028a", "a\u2028",
+		// zero-width graphemes (ZWSP, a combining mark cut off its space) for Draw
+		"\u200bab", "a \u0301b", "ab\u200bcd"} {
 		addPlain(plain, s, smallWidths, &skipped, "regression")
 		addRich(rich, []string{s}, smallWidths, "regression")
 		addHard(hard, []string{s}, "regression")
@@ -732,7 +739,7 @@ func main() {
 	exhaustive(smallAlphabet, exLen, func(s string) {
 		addPlain(plain, s, smallWidths, &skipped, fmt.Sprintf("exhaustive-len%d", utf8.RuneCountInString(s)))
 	})
-	exhaustive(smallAlphabet, exLenRich, func(s string) {
+	exhaustive(richAlphabet, exLenRich, func(s string) {
 		// one style per rune: clusters never join across segments
 		addRich(rich, []string{s}, smallWidths, fmt.Sprintf("exhaustive-len%d", utf8.RuneCountInString(s)))
 		if utf8.RuneCountInString(s) >= 2 {
